@@ -766,7 +766,41 @@ func (in *Interp) visit(fr *frame, instr ssa.Instruction) continuation {
 		fr.env[instr] = &Closure{instr.Fn.(*ssa.Function), bindings}
 
 	case *ssa.Select:
-		in.unsupported("select statement in %s", fr.fn)
+		// sequential semantics: the first ready case, else default, else blocked
+		chosen := -1
+		var recvVal Value
+		recvOk := false
+		for i, st := range instr.States {
+			ch, _ := in.get(fr, st.Chan).(*Chan)
+			if ch == nil {
+				continue
+			}
+			if st.Dir == types.RecvOnly {
+				if len(ch.buf) > 0 || ch.closed {
+					chosen = i
+					recvVal, recvOk = in.chanRecv(ch, st.Chan.Type().Underlying().(*types.Chan).Elem())
+					break
+				}
+			} else if !ch.closed && len(ch.buf) < ch.cap {
+				chosen = i
+				in.chanSend(ch, in.get(fr, st.Send))
+				break
+			}
+		}
+		if chosen < 0 && instr.Blocking {
+			panic(pathEnd{"unsupported", "select would block (sequential execution)"})
+		}
+		r := Tuple{sym.BV(uint64(int64(chosen)), 64), sym.Bool(recvOk)}
+		for i, st := range instr.States {
+			if st.Dir == types.RecvOnly {
+				if i == chosen && recvOk {
+					r = append(r, recvVal)
+				} else {
+					r = append(r, Zero(st.Chan.Type().Underlying().(*types.Chan).Elem()))
+				}
+			}
+		}
+		fr.env[instr] = r
 
 	default:
 		panic(fmt.Sprintf("unexpected instruction %T", instr))
